@@ -227,6 +227,9 @@ def run(ctx, chk, tier):
         else:
             chk.violation("R13.5", Q, method + ":per-component", "%s(%s, axis=%s)" % (call.fn, show(data, 120), show(call.kwd("axis")) if call.kwd("axis") is not None else "?"),
                           "nanquantile(theta[:, j], q=[lo_j, hi_j], axis=0)", ctx.where(Q))
+        if isinstance(qv, App) and qv.fn == "stack" and len(qv.args) == 1 and isinstance(qv.args[0], Tup) and qv.kwd("axis") in (Const(-1), Const(0)) \
+                and all(isinstance(x, App) and x.fn == "getitem" and x.args[1] == j for x in qv.args[0].items):
+            qv = qv.args[0]   # a stacked pair of per-component scalars is the pair itself
         if not (isinstance(qv, Tup) and len(qv.items) == 2 and all(isinstance(x, App) and x.fn == "getitem" and x.args[1] == j for x in qv.items)):
             chk.unknown("R13.5", "%s: quantile levels are not (lo[j], hi[j])" % method)
             continue
